@@ -110,7 +110,7 @@ class Finders:
           # the ID of the link shall be unique also if the link
           # replaces a virtual link, created for a path
           byname = self.line(gfa_line.name)
-          if byname is not None and not byname.virtual:
+          if byname is not None and byname is not found:
             return byname
         return found
     if gfa_line.record_type in self.RECORDS_WITH_NAME:
